@@ -513,8 +513,10 @@ func (c *cluster) step(st string) bool {
 	case "ack":
 		l, fo := pair(f[1])
 		ok = c.stepDeliverAck(l, fo)
-	case "w", "r":
+	case "w", "r", "wc":
 		ok = c.stepClient(f)
+	case "cancel":
+		ok = c.stepCancel(atoi(f[1]))
 	case "crash":
 		ok = c.stepCrash(atoi(f[1]))
 	case "restart":
@@ -717,26 +719,66 @@ func (c *cluster) stepNewTerm(id int, fail bool) bool {
 	return true
 }
 
+// stepNewTermAll: every node the coordinator can reach handles its NewTerm request (the requests were sent in parallel:
+// the handlers, some of which have to open the WAL and the database first, run before any answer is handed back), then
+// the answers are handed to the coordinator back to back, successes first, failures (unreachable nodes) last.
 func (c *cluster) stepNewTermAll() bool {
 	el := c.el
 	if el == nil || (el.phase != "quorum" && el.phase != "grace") {
 		return false
 	}
-	any := false
+	type answer struct {
+		id  int
+		g   *gate
+		res *proto.NewTermResponse
+		r   *ntResp
+		err error
+	}
+	var oks, fails []answer
 	all := append(append([]int(nil), el.ens...), el.removed...)
 	sort.Ints(all)
 	for _, id := range all {
-		if el.phase != "quorum" && el.phase != "grace" {
-			break
-		}
-		if c.ntGate(id) == nil {
+		g := c.ntGate(id)
+		if g == nil {
 			continue
 		}
-		if c.stepNewTerm(id, !c.reachable(0, id)) {
-			any = true
+		if !c.reachable(0, id) {
+			c.event("new-term to %d term=%d: failed by the network", id, el.term)
+			fails = append(fails, answer{id, g, nil, &ntResp{}, errUnavailable})
+			continue
+		}
+		res, r, err := c.deliverNewTerm(c.node(id), g.req.(*proto.NewTermRequest))
+		if r == nil {
+			continue // the node is busy (BecomeLeader / AddFollower holds its lock): its request stays pending
+		}
+		if err != nil {
+			fails = append(fails, answer{id, g, nil, r, err})
+		} else {
+			oks = append(oks, answer{id, g, res, r, nil})
 		}
 	}
-	return any
+	if len(oks)+len(fails) == 0 {
+		return false
+	}
+	for i, a := range append(oks, fails...) {
+		if el.phase != "quorum" && el.phase != "grace" {
+			break // the coordinator has stopped listening (the remaining answers are lost)
+		}
+		if a.err != nil && i > 0 {
+			time.Sleep(300 * time.Microsecond)
+		}
+		el.resp[a.id] = a.r
+		el.total++
+		if a.err == nil {
+			el.succ++
+			c.release(a.g, a.res, nil)
+		} else {
+			el.hadErr = true
+			c.release(a.g, nil, a.err)
+		}
+		c.afterNewTermResponse(a.err != nil)
+	}
+	return true
 }
 
 // afterNewTermResponse mirrors the control flow of newTermQuorum to know what the coordinator does next.
